@@ -1,8 +1,18 @@
 import CoclsModel.Aggregator
 /-!
-Invariants of the generator-aggregator model (`CoclsModel/Aggregator.lean`), part 1: the control structure
-(queue ↔ source states, the active-source counter, where the aggregator can be parked, the destructor drain).
+Invariants of the generator-aggregator model (`CoclsModel/Aggregator.lean`), proved preserved by every step and
+hence (`inv_run`, induction over the op list) true in every reachable state:
+
+* `Inv1` control structure: queue ↔ source states, the active-source counter, where the aggregator can be parked,
+  the controller-destructor drain (no frame destroyed while in flight);
+* `Inv2` values: delivered ++ waiting = yielded, per source; what an ended source left behind;
+* `Inv3` exceptions: the stored exception is the one caught last, caught exceptions ↔ throwing sources;
+* `Inv4` argument routing;
+* `Inv5` every delivered value names a source; the drain pops distinct sources.
+
 Every lemma quantifies over all configurations (`Cfg`: any number of sources, any scripts) and all states.
+
+## part 1: control structure
 -/
 namespace Cocls.Agg
 
